@@ -449,7 +449,7 @@ pub fn run(run: &mut Run) {
     let k2 = run.open_finding("C11-invlpgb-count-is-additional-pages", bcast_reproduces);
     BCAST_KNOWN.store(k2, std::sync::atomic::Ordering::Relaxed);
 
-    let n = run.cases(40_000, 2_000_000);
+    let n = run.cases(200_000, 8_000_000);
     run.sub(
         "flush",
         "tlb::flush(addr) and MapperFlush<4K/2M/1G>::new(page).flush()/page()/ignore() for canonical addresses; oracle: exactly one trapped invlpg whose effective address is the address / the page's start; non-trivial = unaligned address or huge page",
@@ -457,7 +457,7 @@ pub fn run(run: &mut Run) {
         (canon_va(), 0u8..3),
         flush_case,
     );
-    let n = run.cases(40_000, 2_000_000);
+    let n = run.cases(200_000, 8_000_000);
     run.sub(
         "flush_all",
         "tlb::flush_all() / MapperFlushAll::flush_all() under generated CR3 contents (< 2^52, edge-biased, PCID bits frequent); oracle: mov r,cr3 then exactly one mov cr3,r writing the value read; non-trivial = CR3 with bits other than frame|PWT|PCD set",
@@ -465,7 +465,7 @@ pub fn run(run: &mut Run) {
         (prop_oneof![u64_edge(), (phys(), any::<u16>()).prop_map(|(p, l)| (p & !0xfff) | (l as u64 & 0xfff))], any::<bool>()),
         flush_all_case,
     );
-    let n = run.cases(40_000, 2_000_000);
+    let n = run.cases(200_000, 8_000_000);
     run.sub(
         "flush_pcid",
         "flush_pcid for all four kinds x PCIDs 0..4096 (plus rejected values >= 4096) x canonical addresses; oracle: one invpcid with type = 0/1/2/3, descriptor[0] = PCID in bits 0..12 and zero above, descriptor[1] = address",
@@ -473,7 +473,7 @@ pub fn run(run: &mut Run) {
         (0u8..4, prop_oneof![8 => 0u16..4096, 1 => Just(4095u16), 1 => 4096u16..], canon_va()),
         pcid_case,
     );
-    let n = run.cases(12_000, 600_000);
+    let n = run.cases(40_000, 1_600_000);
     run.sub(
         "broadcast",
         "InvlpgbFlushBuilder: processor maxima edge-biased over 0..=65535 (0,1,2 frequent), 4KiB/2MiB PageRanges (empty, short, multi-chunk, ending at / crossing the lower-half end, reaching the top, arbitrary end), every combination of pcid / asid (< and >= nasid) / include_global / final_translation_only / include_nested (with and without support), and the no-range form; oracle: each trapped invlpgb decoded per the AMD manual: option bits/PCID/ASID as requested, ECX[15:0] <= processor maximum, no request extends across the non-canonical gap or past the top, the union of [va, va+(cnt+1)*size) covers every page of the range, empty range => no request, no range => exactly one request without VA; non-trivial = multi-request flush, 2MiB pages, or a range touching the gap/top; distinct by (size, range, max, options)",
